@@ -1222,6 +1222,22 @@ def check_C15(tier, seed):
     def events(q):
         return [drain_ev(), drain_ev()]
 
+    def extra(qc, rng, quick):
+        # the same sub-query *object* used wherever its expression occurs again within one query (the documented way to
+        # reuse an intermediate object across conditions)
+        run = qc.run
+        pool = run.export("GenQuery", "G6-pool", "PROG", constants=dict(G="G6", NV=2, LeafLimit=40, MaxLeaves=2, MaxNot=0,
+                                                                        NeedNot=False), count=False)
+        pool = [p for p in pool if count_nodes(p["cond"], "subq") + count_nodes(p["cond"], "sub") > 0 and _the_ok(p)
+                and '"quant": "the"' not in json.dumps(p["cond"])]
+        for _ in range(500 if quick else 10000):
+            # one query, built once with separate and once with shared sub-query objects.  (Sharing a sub-query object
+            # between two *different* queries is not explored: an expression node has one parent, the second query
+            # re-parents it - DESIGN section 8.)
+            W, doms = _world_and_doms(rng, 3, quick)
+            p1 = rng.choice(pool)
+            qc.add(W, [mk_query(p1, doms), mk_query(p1, doms, sharesubs=True)],
+                   [drain_ev(1), drain_ev(2, eqto=1), drain_ev(2, eqto=1)], tag="shared-within")
     return _grammar_check(
         "C15", tier, seed, ["G6"],
         "sub-queries an(entity(x, c)), an(entity(y, c)), an(set_of([x, y], c)) used as conditions of an enclosing query "
@@ -1230,7 +1246,7 @@ def check_C15(tier, seed):
         "meaning of its conditions inlined; correlated sub-queries (inner condition on a variable of the enclosing query) "
         "with an and with the (unique solution per outer binding); non-trivial = result neither empty nor everything", 3,
         events=events, needs=lambda p: count_nodes(p["cond"], "subq") + count_nodes(p["cond"], "sub") > 0 and _the_ok(p),
-        fix_doms=_the_doms)
+        fix_doms=_the_doms, extra=extra)
 
 
 CHECKS.update({"C10": check_C10, "C15": check_C15, "C16": check_C16, "C17": check_C17})
@@ -1395,6 +1411,20 @@ def check_C11(tier, seed):
              "desc": "entity", "quant": "infer", "sel": [], "cond": p["cond"], "head": p["head"], "varkeys": [1, 2]}
         qc.add(W, [q], [{"op": "abandon", "qi": 1, "k": rng.randint(1, 2)}, {"op": "infer", "qi": 1}, {"op": "infer", "qi": 1}],
                tag="abandoned-first")
+
+    # heads with a sub-query argument over y, bodies over x alone (the body does not bind the argument's variable)
+    subheads = [h for h in {json.dumps(p["head"], sort_keys=True) for p in progs} if '"k": "sub"' in h]
+    xbodies = run.export("GenQuery", "G1-bodies", "PROG", constants=dict(G="G12", NV=1, LeafLimit=12, MaxLeaves=2, MaxNot=1,
+                                                                          NeedNot=False), count=False)
+    for _ in range(300 if quick else 6000):
+        W, doms = _world_and_doms(rng, 2, quick)
+        q = {"vars": [{"cls": "A", "dom": doms[0]}, {"cls": "A", "dom": doms[1]}], "flats": [], "bound": [],
+             "desc": "entity", "quant": "infer", "sel": [], "cond": rng.choice(xbodies)["cond"],
+             "head": json.loads(rng.choice(subheads)), "varkeys": [1, 2]}
+        evs = rng.choice([[{"op": "abandon", "qi": 1, "k": 1}, {"op": "infer", "qi": 1}, {"op": "infer", "qi": 1}],
+                          [{"op": "infer", "qi": 1}, {"op": "infer", "qi": 1}],
+                          [{"op": "cfg", "caching": False}, {"op": "infer", "qi": 1}, {"op": "infer", "qi": 1}]])
+        qc.add(W, [q], evs, tag="sub-query-argument")
 
     def nontrivial(t):
         ev = [e for e in t["evs"] if e["op"] == "infer"][0]
